@@ -308,6 +308,10 @@ PROPS['C04'] = sl_entry('C04', lambda c: 'crash' in c.tags,
     level_note='Partial: real process death, page cache and File::create truncate-under-mapping (SIGBUS) are modelled abstractly (a reader can only be attached to a usable file, which is proved never to be truncated); death is modelled between hook events.',
 )
 
+import props_header
+PROPS.update(props_header.PROPS_HEADER)
+PRE_HOOKS = props_header.PRE_HOOKS
+
 from props_threads import PROPS_THREADS, EXTERNAL_THREADS
 PROPS.update(PROPS_THREADS)
 EXTERNAL.update(EXTERNAL_THREADS)
